@@ -145,6 +145,36 @@ func genL3(rt *rapid.T) l3Case {
 	return c
 }
 
+// duringDrain: a second signal arrives while the first one's drain is still waiting for the request.
+func (c l3Case) duringDrain() bool {
+	return c.Second != "" && c.Point != "idle" && (c.Over || c.SecondMs < c.ReleaseMs)
+}
+
+// genL3SecondDuringDrain draws a case in which, by construction, a second signal arrives while a request
+// is still being drained (the repeated-shutdown clause at process level): a request in flight, finished by
+// the backend 200 ms or more after the first signal (or never), second signal 0-100 ms after the first.
+func genL3SecondDuringDrain(rt *rapid.T) l3Case {
+	c := genL3(rt)
+	for i := 0; i < 8 && c.Point == "idle"; i++ {
+		c = genL3(rt)
+	}
+	if c.Point == "idle" {
+		return c
+	}
+	if c.Second == "" {
+		c.Second = rapid.SampledFrom([]string{"TERM", "INT"}).Draw(rt, "forced_second_signal")
+	}
+	c.SecondMs = rapid.SampledFrom([]int{0, 1, 10, 100}).Draw(rt, "forced_second_ms")
+	if !c.Over && c.ReleaseMs < 200 {
+		if c.Point == "half-sent-head" {
+			c.ReleaseMs = rapid.SampledFrom([]int{200, 500}).Draw(rt, "forced_rest_after_ms")
+		} else {
+			c.ReleaseMs = rapid.SampledFrom([]int{200, 600, (min(c.ShutdownS, 4) - 1) * 1000}).Draw(rt, "forced_release_ms")
+		}
+	}
+	return c
+}
+
 func (c l3Case) yaml(port, metricsPort, adminPort int, backendURL string) string {
 	var b strings.Builder
 	if c.ShutdownOmitted {
@@ -438,16 +468,21 @@ func judgeResponse(c l3Case, out *lab.RawResponse, body []byte) string {
 func TestC19Signals(t *testing.T) {
 	sub := lab.Sub(l3Name, "rapid: the real helios binary (timeouts.shutdown 2-4 s, one scripted raw TCP backend, optional metrics listener, every further optional feature on or off by draw with the values of the shipped sample file - rate_limit, circuit_breaker, passive checks, websocket_pool, admin_api (1 in 4), a plugin chain [logging, request-id, headers] -, active checks off / interval 2-3 s answered / interval 10 s timeout 9 s with probes that hang in the backend) receives SIGTERM or SIGINT "+
 		"at a drawn point: no request in flight; a request of which only the request line and one header field have been sent (the rest of the head follows 0-500 ms after the signal, the backend answers at once); a request that reached the backend which has not answered (released 0-(timeout-1) s after the signal); a response of whose first body part (1 B-64 KiB) the client has read everything the proxy must have passed on (all of it when chunked, all but 8 KiB when CL-framed) while the backend waits on a barrier before part 2 (1 B-200 kB; CL or chunked; status 200/201/404); "+
-		"1 in 7 requests is never finished by the backend (outlasts the shutdown timeout); 1 in 3 cases sends a second SIGTERM/SIGINT 0-100 ms later, during the shutdown; "+
+		"1 in 7 requests is never finished by the backend (outlasts the shutdown timeout); 1 in 3 cases sends a second SIGTERM/SIGINT 0-100 ms later, during the shutdown, and in two of every six cases a second signal arrives by construction while the request is still being drained (backend finishes >= 200 ms after the first signal or never); "+
 		"oracle: the in-flight request is received complete and exact, the process exits within shutdown timeout + 2 s with status 0 (status not asserted for the outlasting request) and no panic trace, the backend sees nothing after the exit; non-trivial = a request is in flight when the signal arrives")
 	sub.NontrivialFloor(0.60)
+	sub.Floor("second-signal-during-drain", 0.25)
 	lab.Assume("L3: loopback only; a request counts as in flight once the scripted backend has parsed it; 'remaining duration below the shutdown timeout' is generated with a 1 s margin; the exit bound is shutdown timeout + 2 s of real time (normal: milliseconds)")
 	const par = 6
 	// 4 / 50 batches x par binaries: 24 quick, 300 thorough (before sharding)
 	lab.Check(t, sub, 4, 50, func(rt *rapid.T) {
 		cases := make([]l3Case, par)
 		for i := range cases {
-			cases[i] = genL3(rt)
+			if i%3 == 0 { // two of the six by construction
+				cases[i] = genL3SecondDuringDrain(rt)
+			} else {
+				cases[i] = genL3(rt)
+			}
 		}
 		res := make([]l3Result, par)
 		var wg sync.WaitGroup
@@ -479,6 +514,9 @@ func TestC19Signals(t *testing.T) {
 			}
 			if c.Second != "" {
 				labels = append(labels, "second-signal")
+			}
+			if c.duringDrain() {
+				labels = append(labels, "second-signal-during-drain")
 			}
 			if c.Active {
 				labels = append(labels, "active-checks")
